@@ -20,7 +20,7 @@ RULE = (
     "(timeout = k + 0.5 on the virtual clock) for ctparse_gen and ctparse.  Oracle at every k: no exception; stream is a prefix (value, span, production, score) of the "
     "no-deadline stream; ctparse returns a best element of that prefix or an empty result; after the clock passed the deadline at most 2 scorings of initial sequences, "
     "at most R*L+2 scorings and R*L rule invocations happen (R rules, L longest match sequence) and at most ONE partial parse is still expanded or emitted - independent of the number of candidate sequences; timeout=0 never "
-    "consults the deadline and equals the unreachable-deadline run.  One evaluation = one (input, model, depth, k) run pair; non-trivial = expiry point at which the run "
+    "consults the deadline and equals the unreachable-deadline run.  A wide-stack input (729 candidate sequences) is included so that a check frequency that depends on the number of sequences shows.  One evaluation = one (input, model, depth, k) run pair; non-trivial = expiry point at which the run "
     "is actually cut short (stream shorter than the full one or deadline raised); distinct by construction."
 )
 ASSUMPTIONS = [
@@ -31,7 +31,11 @@ ASSUMPTIONS = [
 HUGE = 1e18
 
 INPUTS_QUICK = ["tomorrow 5pm", "1", "1 1", "1 1 1", "monday 9-5", "gargelbabel", "next friday at 8 #x", "tomorrow 8 yesterday Sep 9 9", "1 x 1 x 1", "1 x 1 x 1 x 1 x 1"]
-INPUTS_THOROUGH = INPUTS_QUICK + [
+# wide initial stacks (>= 256 candidate sequences): a deadline check that is thinned out with the size of the stack (every len/128-th
+# sequence, say) behaves exactly like the per-sequence check on everything smaller.  Quick tier: clock model 'reads', default depth,
+# every expiry point up to the end of the initial-stack phases (4 * number of sequences + 64 events); thorough: every expiry point.
+INPUTS_WIDE = ["1 1 1 1 1 1"]
+INPUTS_THOROUGH = INPUTS_QUICK + INPUTS_WIDE + [
     "1 1 1 1",
     "1 1 1 1 1",
     "tomorrow 8 yesterday Sep 9 9 12 2023 1923",
@@ -293,14 +297,25 @@ def plan(tier, seed):
                 if depth == 0 and len(text) > 20:
                     continue
                 cand.append((text, mode, depth))
+    wide = set()
+    if tier == "quick":
+        for text in INPUTS_WIDE:
+            cand.append((text, "reads", 10))
+            wide.add((text, "reads", 10))
     fresh = _fresh_baselines(cand, ts_s)
     combos = []
     too_big = []
     # a combination costs about N runs of N events each: bounded by the number of expiry points N (a count, not a measured time, so that
     # the explored set is the same on every machine and under every load)
     max_n = 800 if tier == "quick" else 6000
+    kcap = {}
     for text, mode, depth in cand:
         b = fresh["%s|%s|%d" % (text, mode, depth)]
+        if (text, mode, depth) in wide:
+            _base[(mode, text, ts_s, depth)] = (b[0], b[1], b[2], b[3], b[4], b[5])
+            kcap[(text, mode, depth)] = min(b[1], 4 * b[4] + 64)
+            combos.append((text, mode, depth, b[1]))
+            continue
         if b[1] > max_n:
             too_big.append("{}|{}|depth{} (N={})".format(text, mode, depth, b[1]))
             continue
@@ -309,8 +324,10 @@ def plan(tier, seed):
 
     def gen():
         for text, mode, depth, N in combos:
-            for k in range(0, N + 1):
+            for k in range(0, kcap.get((text, mode, depth), N) + 1):
                 yield ("k", text, ts_s, mode, depth, k)
+            if (text, mode, depth) in kcap:
+                continue
             yield ("zero", text, ts_s, mode, depth, 0)
             # a run that timed out must leave nothing behind: timed run at expiry point k, then an unlimited run of the same text
             for k in sorted({0, N // 7, N // 3, N // 2, (2 * N) // 3}):
@@ -326,8 +343,9 @@ def plan(tier, seed):
         "inputs": len(inputs),
         "clock_models": ["reads", "ticks", "ticks+nb (shipped scorer object passed as is; rows counted at the model)"],
         "depths": [10, 0],
-        "expiry_points_per_combination": {"{}|{}|depth{}".format(t, m, d): N + 1 for t, m, d, N in combos},
-        "runs": sum(N + 2 for _, _, _, N in combos) * 2,
+        "expiry_points_per_combination": {"{}|{}|depth{}".format(t, m, d): kcap.get((t, m, d), N) + 1 for t, m, d, N in combos},
+        "wide_stack_combinations_capped_to_initial_phases": {"{}|{}|depth{}".format(*c): "expiry points 0..{} of {} explored (thorough tier: all)".format(kc, _base[(c[1], c[0], ts_s, c[2])][1]) for c, kc in kcap.items()},
+        "runs": sum(kcap.get((t, m, d), N) + 2 for t, m, d, N in combos) * 2,
         "combinations_outside_budget_not_explored": too_big,
     }
     return {"space": space, "cases": gen(), "chunk": 16, "hash_distinct": True}
